@@ -102,7 +102,8 @@ Inductive crash_at : disk -> list teff -> disk -> Prop :=
 | crash_torn_tmp : forall d v effs k, crash_at d (TWriteTmpRename (Whole v) :: effs) (tapply (TWriteTmpRename (Torn k)) d).
 
 (* ---- steps of a session ---- *)
-Inductive step := SWrite (p : nat) (ts : list Z) | SSync | SPipe (n : nat) | SDelPipe (n : nat).
+Inductive step := SWrite (p : nat) (ts : list Z) | SSync | SPipe (n : nat) | SDelPipe (n : nat)
+                | SDrop (p : nat) | SDrain (s t : nat).
 
 Definition events_of (p : nat) (j : list (nat * (nat * list Z))) : list Z :=
   match lookup p j with Some (_, evs) => evs | None => [] end.
@@ -126,22 +127,31 @@ Inductive pcrash_at (fx : fixes) (d : disk) (l : list nat) : disk -> Prop :=
 | pcrash_done : pcrash_at fx d l (save_pipes d l)
 | pcrash_torn : forall k, fx_pipes fx = false -> pcrash_at fx d l (set_pipes d (Some (Torn k))).
 
+(* what the clients were told about a partition: its flushed events, then the acknowledged ones still buffered *)
+Definition acked (m : mem) (d : disk) (p : nat) : list Z := events_of p (d_jrnl d) ++ get_list p (m_buf m).
+
+Fixpoint remove_key {A} (p : nat) (l : list (nat * A)) : list (nat * A) :=
+  match l with [] => [] | (q, v) :: tl => if Nat.eqb q p then remove_key p tl else (q, v) :: remove_key p tl end.
+
+(* partition.Service.Write *)
+Definition do_write (fx : fixes) (m : mem) (d : disk) (p : nat) (ts : list Z) : mem * disk :=
+  let newp := negb (mem_nat p (m_parts m)) in
+  let parts := if newp then m_parts m ++ [p] else m_parts m in
+  let d' := if newp then tsave fx d parts else d in
+  (* the chunk being written, or a new chunk file with a fresh id *)
+  let cid := match lookup p (m_cur m) with Some c => c | None => d_next d' end in
+  let d'' := match lookup p (m_cur m) with
+             | Some _ => d'
+             | None => mkDisk (d_tdat d') (d_tbak d') (d_cdat d') (d_pdat d') (d_jrnl d') (S (d_next d'))
+             end in
+  (mkMem parts (update p (get_list p (m_buf m) ++ ts) (m_buf m))
+         (match widen (lookup cid (m_hull m)) ts with Some h => update cid h (m_hull m) | None => m_hull m end)
+         (m_pipes m) (update p cid (m_cur m)), d'').
+
 Definition do_step (fx : fixes) (md : mem * disk) (s : step) : mem * disk :=
   let '(m, d) := md in
   match s with
-  | SWrite p ts =>
-      let newp := negb (mem_nat p (m_parts m)) in
-      let parts := if newp then m_parts m ++ [p] else m_parts m in
-      let d' := if newp then tsave fx d parts else d in
-      (* the chunk being written, or a new chunk file with a fresh id *)
-      let cid := match lookup p (m_cur m) with Some c => c | None => d_next d' end in
-      let d'' := match lookup p (m_cur m) with
-                 | Some _ => d'
-                 | None => mkDisk (d_tdat d') (d_tbak d') (d_cdat d') (d_pdat d') (d_jrnl d') (S (d_next d'))
-                 end in
-      (mkMem parts (update p (get_list p (m_buf m) ++ ts) (m_buf m))
-             (match widen (lookup cid (m_hull m)) ts with Some h => update cid h (m_hull m) | None => m_hull m end)
-             (m_pipes m) (update p cid (m_cur m)), d'')
+  | SWrite p ts => do_write fx m d p ts
   | SSync => flush_all m d
   | SPipe n =>
       if mem_nat n (m_pipes m) then (m, d)
@@ -152,6 +162,21 @@ Definition do_step (fx : fixes) (md : mem * disk) (s : step) : mem * disk :=
         let ps := filter (fun x => negb (Nat.eqb x n)) (m_pipes m) in
         (mkMem (m_parts m) (m_buf m) (m_hull m) ps (m_cur m), if fx_pipes fx then save_pipes d ps else d)
       else (m, d)                                (* NotFound: nothing changes, nothing is saved *)
+  | SDrop p =>
+      (* TRUNCATE removes every chunk, then deleteJournal: TIndex.Delete (the record goes, the index is saved), the
+         directory is removed; what the chunk writer still buffered goes with it *)
+      if mem_nat p (m_parts m) then
+        let parts := filter (fun x => negb (Nat.eqb x p)) (m_parts m) in
+        let d' := tsave fx d parts in
+        (mkMem parts (remove_key p (m_buf m)) (m_hull m) (m_pipes m) (remove_key p (m_cur m)),
+         mkDisk (d_tdat d') (d_tbak d') (d_cdat d') (d_pdat d') (remove_key p (d_jrnl d')) (d_next d'))
+      else (m, d)
+  | SDrain s t =>
+      (* the worker of a pipe from partition s to partition t has run (a write to s started or woke it) and caught up: it
+         writes to t - which registers t, even when there is nothing to forward - once and in order, the flushed events
+         of s it has not forwarded yet. Its progress is not a separate piece of state here: it stands after the last
+         event it wrote to t (the progress file pipe<name>.dat is saved with every batch forwarded) *)
+      if mem_nat s (m_parts m) then do_write fx m d t (skipn (length (acked m d t)) (events_of s (d_jrnl d))) else (m, d)
   end.
 
 Definition run_steps (fx : fixes) (md : mem * disk) (l : list step) : mem * disk := fold_left (do_step fx) l md.
@@ -250,7 +275,9 @@ Definition range_query (h : option hull) (evs : list Z) (lo hi : Z) : list Z :=
   | None => filter (in_range lo hi) evs
   end.
 
-Inductive obs := ORefused | OStarted (parts : list (option (list Z))) (pipes : list nat) (ranges : list (list Z)).
+(* [OBlind]: the server started and nothing was asked of it before the session's first step (a query would let the time
+   index learn the chunks the snapshot does not know; the session is about what a write finds) *)
+Inductive obs := ORefused | OStarted (parts : list (option (list Z))) (pipes : list nat) (ranges : list (list Z)) | OBlind.
 
 Definition hull_of (p : nat) (m : mem) : option hull :=
   match lookup p (m_cur m) with Some cid => lookup cid (m_hull m) | None => None end.
@@ -279,8 +306,7 @@ Fixpoint run_sessions (fx : fixes) (np : nat) (lo hi : Z) (d : disk) (l : list s
   end.
 
 (* ---- vocabulary of the statements ---- *)
-(* what the clients were told: registered partitions, acknowledged events (flushed or not), pipe definitions *)
-Definition acked (m : mem) (d : disk) (p : nat) : list Z := events_of p (d_jrnl d) ++ get_list p (m_buf m).
+(* what the clients were told: registered partitions, acknowledged events (flushed or not: [acked]), pipe definitions *)
 (* a running server and its directory agree: the tag index is saved, every journal with data and every buffer belongs
    to a registered partition, there is one buffer per partition and it belongs to the chunk being written *)
 Definition bufs_ok (m : mem) : Prop :=
